@@ -69,6 +69,8 @@ def monitor_records(spec, sem, result):
         elif e["ev"] == "VdrRemove":
             out.append(rec(ev="VdrRemove", files=e.get("files") or [], flag=not e.get("outside"),
                            txt="%s, %s of %s" % (e.get("path"), e.get("why"), e.get("fork"))))
+        elif e["ev"] == "ClusterSubmit":
+            out.append(rec(ev="ClusterSubmit", job=e["job"], nums=[e["inflight"], e["limit"]]))
         elif e["ev"] == "VdrFinal":
             out.append(rec(ev="VdrFinal", files=e.get("present") or [], gs=(e.get("gone") or []) + (e.get("damaged") or []),
                            xs=e.get("extras") or [], ts=e.get("tmps") or [], ls=e.get("listed_exists") or [],
